@@ -306,6 +306,32 @@ def r5_unsafe_inventory(cx):
         cx.ob("R5", "R5/private/%s" % n.split("::")[-1], "Public" not in s.get("vis", "") or "Restricted" in s.get("vis", ""), "(struct %s)" % n, "%s is not public (visibility %s): user code cannot hand out the raw buffer" % (n.split("::")[-1], s.get("vis")))
 
 
+def r7_eviction_safe(cx):
+    """a cluster evicted from the LRU cache stays alive for the readers that hold it: the cache hands out Arc
+    clones and every content view owns an Arc of its source"""
+    F = cx.F
+    f = F.one(impl_self="ContentPack", item="get_cluster", closure=False)
+    b = F.body(f)
+    cl = b.calls(r"Arc<reader::content_pack::cluster::Cluster> as std::clone::Clone>::clone$")
+    oks = [(i, s["rv"]["fields"][0]) for i, blk in enumerate(b.blocks) if not blk.get("cleanup") for s in blk["s"] if s["k"] == "assign" and s["lhs"]["l"] == 0 and s["rv"]["k"] == "agg" and s["rv"].get("variant") == "Ok"]
+    ok = len(cl) == 1 and len(oks) == 1 and any(x == ("call", cl[0][0]) for x in b.origins(oks[0][1], through_calls=False))
+    cx.ob("R7", "R7/get_cluster-returns-arc-clone", ok, f, "get_cluster returns a clone of the cached Arc<Cluster> (the lock guard and the cache slot are not borrowed by the caller)")
+    g = [x for x in F.fns if x.get("impl_self", "").endswith("byte_region::ByteRegion") and x.get("item_name") == "from" and "ByteSlice" in x["name"]]
+    ok = len(g) == 1
+    if ok:
+        gb = F.body(g[0])
+        ac = gb.calls(r"Arc<dyn bases::io::Source> as std::clone::Clone>::clone$")
+        ok = len(ac) == 1
+    cx.ob("R7", "R7/region-owns-its-source", ok, g[0] if g else "(From<ByteSlice> for ByteRegion)", "ByteRegion::from(ByteSlice) clones the Arc<dyn Source>: the bytes outlive the cluster that produced the view")
+    h = F.one(impl_self="reader::content_pack::cluster::Cluster", item="get_bytes", closure=False)
+    hb = F.body(h)
+    into = hb.calls(r"Into<reader::byte_region::ByteRegion>>::into$|ByteRegion as .*From<.*ByteSlice.*>>::from$")
+    cx.ob("R7", "R7/get_bytes-returns-owned-region", len(into) == 1, h, "Cluster::get_bytes converts the borrowed ByteSlice into an owning ByteRegion before the read guard is released")
+    st = F.struct("reader::content_pack::ContentPack")
+    ty = [fl["ty"] for fl in st["fields"] if fl["name"] == "cluster_cache"]
+    cx.ob("R7", "R7/cache-holds-arcs", bool(ty) and "Arc<reader::content_pack::cluster::Cluster>" in ty[0] and "Mutex<" in ty[0], "(struct ContentPack)", "cluster_cache: Mutex<LruCache<ClusterIdx, Arc<Cluster>>> (%s)" % (ty[0][:90] if ty else None))
+
+
 def r6_witness(cx):
     """type-level: the reader views are Send + Sync (+ 'static for ByteRegion); the raw buffer types are private"""
     import witness
@@ -322,4 +348,5 @@ RULES = [
     ("R4", r4_lock_order, 5),
     ("R5", r5_unsafe_inventory, 4),
     ("R6", r6_witness, 1),
+    ("R7", r7_eviction_safe, 4),
 ]
